@@ -173,27 +173,53 @@ def run(ctx):
         if isinstance(x, ast.AugAssign) and isinstance(x.op, ast.Add) and \
                 norm(x.value) == '1':
             sn = cfg.stmt_node(x)
-            for (t, pol, gn_) in cfg.guards(sn):
-                if isinstance(t, ast.expr) and pol and \
-                        '< concurrency' in norm(t):
-                    ok = True
+            ok = ok or U.guarded(cfg, sn, '__cap < concurrency', True) or \
+                U.guarded(cfg, sn, '__cap < self._get_concurrency()', True)
     r3.check(ok, ctx.construct(ic, extra='bounded by concurrency'),
              'capacity increase is not bounded by "< concurrency"',
              ctx.loc(ic))
     dc = prog.func(WIT + '._decrease_capacity')
     cfg = ctx.cfg(dc)
     ok = False
+    nn = False
     for x in own_nodes(dc.node):
         if isinstance(x, ast.AugAssign) and isinstance(x.op, ast.Sub):
             sn = cfg.stmt_node(x)
-            for (t, pol, gn_) in cfg.guards(sn):
-                if isinstance(t, ast.expr) and pol and \
-                        norm(t) in ('capacity >= count', 'count <= capacity'):
-                    ok = True
-    raises = any(isinstance(x, ast.Raise) for x in own_nodes(dc.node))
-    r3.check(ok and raises, ctx.construct(dc, extra='never negative'),
-             'capacity can go negative (no capacity >= count guard / raise)',
-             ctx.loc(dc))
+            ok = ok or U.guarded(cfg, sn, 'capacity >= count', True)
+            nn = nn or U.guarded(cfg, sn, 'capacity is None', False)
+    raises = [cfg.stmt_node(x) for x in own_nodes(dc.node)
+              if isinstance(x, ast.Raise)]
+    r3.check(ok and bool(raises) and all(
+        U.guarded(cfg, x, 'capacity >= count', False) for x in raises),
+        ctx.construct(dc, extra='never negative'),
+        'capacity can go negative (no capacity >= count guard / raise)',
+        ctx.loc(dc))
+    r3.check(nn, ctx.construct(dc, extra='unlimited capacity untouched'),
+             'capacity arithmetic is not restricted to a configured '
+             '(non-None) capacity', ctx.loc(dc))
+    # nested changes of runtime_context['with_items'] are invisible to the
+    # MutableDict column type: the change must be followed by a top-level
+    # write of runtime_context
+    for g in (ic, dc):
+        gcfg = ctx.cfg(g)
+        for x in own_nodes(g.node):
+            if isinstance(x, ast.AugAssign) and \
+                    isinstance(x.target, ast.Subscript):
+                sn = gcfg.stmt_node(x)
+                wr = [n for n, c in gcfg.calls(
+                    lambda c: U.call_name(c) == 'update' and
+                    'runtime_context' in norm(c.func))]
+                wr += [gcfg.stmt_node(st) for st in own_nodes(g.node)
+                       if isinstance(st, ast.Assign) and any(
+                           isinstance(t, ast.Subscript) and
+                           'runtime_context' in norm(t.value)
+                           for t in st.targets)]
+                r3.check(bool(wr) and gcfg.must_pass(sn, wr),
+                         ctx.construct(g, extra='capacity written back'),
+                         'the changed capacity is not written back with a '
+                         'top-level runtime_context update (nested changes '
+                         'of a MutableDict column are not persisted)',
+                         ctx.loc(g, x))
 
     # ---- R4 result order --------------------------------------------------------
     r4 = ctx.rule('R4', 'results are sorted by item index and filtered on '
@@ -247,10 +273,12 @@ def run(ctx):
     order = []
     for x in sorted(rets, key=lambda z: z.lineno):
         order.append(norm(x.ast.value))
-    r5.check(order == ['states.CANCELLED', 'states.ERROR', 'states.SUCCESS'],
+    r5.check(sorted(set(order)) == ['states.CANCELLED', 'states.ERROR',
+                                    'states.SUCCESS'],
              ctx.construct(fs, extra='precedence'),
-             'final state precedence is %s, expected CANCELLED, ERROR, '
-             'SUCCESS' % order, ctx.loc(fs))
+             'final states returned are %s, expected CANCELLED, ERROR, '
+             'SUCCESS (precedence is decided by the guards rule)' % order,
+             ctx.loc(fs))
     lc = U.lambda_names(fs.node,
                         '__x.accepted and __x.state == states.CANCELLED')
     le = U.lambda_names(fs.node,
@@ -261,17 +289,21 @@ def run(ctx):
              ctx.loc(fs))
     # guards of the returns
     ok = True
+    FP = 'list(filter(__f, self.task_ex.executions))'
+
+    def tested(x, names, truth):
+        return any(isinstance(b['__f'], ast.Name) and b['__f'].id in names
+                   for b in U.guard_match(cfg, x, FP, truth))
     for x in rets:
         v = norm(x.ast.value)
-        g = cfg.guards(x)
-        used = {y.id for y in ast.walk(g[0][0])
-                if isinstance(y, ast.Name)} if g else set()
         if v == 'states.CANCELLED':
-            ok = ok and bool(g) and g[0][1] and bool(used & lc)
+            ok = ok and tested(x, lc, True)
         if v == 'states.ERROR':
-            ok = ok and bool(g) and g[0][1] and bool(used & le)
+            ok = ok and tested(x, le, True) and tested(x, lc, False)
+        if v == 'states.SUCCESS':
+            ok = ok and tested(x, le, False) and tested(x, lc, False)
     r5.check(ok, ctx.construct(fs, extra='guards'),
-             'CANCELLED/ERROR returns are not under their own tests',
+             'CANCELLED/ERROR/SUCCESS returns are not under their own tests',
              ctx.loc(fs))
     wc = prog.func(WIT + '.is_with_items_completed')
     rets = [x for x in own_nodes(wc.node) if isinstance(x, ast.Return)]
@@ -301,14 +333,32 @@ def run(ctx):
     r5.check(okd, ctx.construct(wc, extra='definitions'),
              'accepted filter / full-capacity definition changed',
              ctx.loc(wc))
+    wcfg = ctx.cfg(wc)
+    lcc = U.lambda_names(wc.node,
+                         '__x.accepted and __x.state == states.CANCELLED')
+    for x in rets:
+        if x is last:
+            continue
+        sn = wcfg.stmt_node(x)
+        v = norm(x.value) if x.value is not None else 'None'
+        if v in ('False', 'None'):
+            okr = True      # "not complete" is always safe for this property
+        else:
+            okr = v == 'True' and any(
+                isinstance(b['__f'], ast.Name) and b['__f'].id in lcc
+                for b in U.guard_match(
+                    wcfg, sn, 'list(filter(__f, self.task_ex.executions))',
+                    True))
+        r5.check(okr, ctx.construct(wc, x),
+                 'with-items is reported complete early for a reason other '
+                 'than an accepted CANCELLED item', ctx.loc(wc, x))
     sa = prog.func(WIT + '._schedule_actions')
     cfg = ctx.cfg(sa)
     comp = [(n, c) for n, c in U.calls_in(cfg, 'complete')
             if c.args and norm(c.args[0]) == 'states.SUCCESS']
     ok = False
     for n, c in comp:
-        g = cfg.guards(n)
-        if g and norm(g[0][0]) == 'not input_dicts' and g[0][1]:
+        if U.guarded(cfg, n, 'input_dicts', False):
             nxt = [s for s, k in n.succ if k != 'exc']
             ok = any(isinstance(s.ast, ast.Return) for s in nxt)
     r5.check(ok, ctx.construct(sa, extra='empty input succeeds'),
@@ -335,6 +385,151 @@ def run(ctx):
              ctx.construct(ra, extra='partial rerun'),
              'without reset, executions other than accepted ERROR/CANCELLED '
              'ones are un-accepted', ctx.loc(ra))
+
+    # ---- R8 decisions of one completion -------------------------------------
+    r8 = ctx.rule('R8', 'a completion finishes the task only when all items '
+                  'are done, with the computed final state, and schedules '
+                  'further items only otherwise', 'GD')
+    oc = prog.func(WIT + '.on_action_complete')
+    cfg = ctx.cfg(oc)
+    DONE = 'self.is_with_items_completed()'
+    comp = U.calls_in(cfg, 'complete')
+    if not comp:
+        raise AnalysisError('C07.R8: complete() lost in on_action_complete')
+    for n, c in comp:
+        r8.check(U.guarded(cfg, n, DONE, True), ctx.construct(oc, c),
+                 'the task is completed without is_with_items_completed() '
+                 'holding', ctx.loc(oc, c))
+        a0 = c.args[0] if c.args else None
+        okv = False
+        if isinstance(a0, ast.Name):
+            defs = [x for x in own_nodes(oc.node) if isinstance(x, ast.Assign)
+                    and any(dotted(t) == a0.id for t in x.targets)]
+            okv = bool(defs) and all(
+                norm(x.value) == 'self._get_final_state()' for x in defs)
+        elif a0 is not None:
+            okv = norm(a0) == 'self._get_final_state()'
+        r8.check(okv, ctx.construct(oc, extra='final state passed'),
+                 'the state passed to complete() is not the value of '
+                 '_get_final_state()', ctx.loc(oc, c))
+    for n, c in U.calls_in(cfg, '_schedule_actions'):
+        r8.check(U.guarded(cfg, n, DONE, False) and
+                 U.guarded(cfg, n, 'self._has_more_iterations()', True) and
+                 U.guarded(cfg, n, 'self._get_concurrency()', True),
+                 ctx.construct(oc, extra='schedule more only when needed'),
+                 'further items are scheduled although the task is complete, '
+                 'nothing is left, or there is no concurrency limit '
+                 '(everything was started at once)', ctx.loc(oc, c))
+    # first scheduling round initialises {count, capacity} before indexes
+    # are computed
+    sa = prog.func(WIT + '._schedule_actions')
+    cfg = ctx.cfg(sa)
+    gid = U.calls_in(cfg, '_get_input_dicts')
+    prep = U.calls_in(cfg, '_prepare_runtime_context')
+    if not gid or not prep:
+        raise AnalysisError('C07.R8: _schedule_actions structure lost')
+    notnew = U.nodes_where(cfg, 'self._is_new()', False)
+    r8.check(cfg.must_pass(cfg.entry, [n for n, c in prep] + notnew,
+                           exits=[n for n, c in gid]),
+             ctx.construct(sa, extra='context prepared first'),
+             'item indexes can be computed for a new task before '
+             '_prepare_runtime_context() stored count and capacity',
+             ctx.loc(sa))
+    pr = prog.func(WIT + '._prepare_runtime_context')
+    okp = False
+    for x in own_nodes(pr.node):
+        if isinstance(x, ast.Dict):
+            kv = {norm(k): norm(v) for k, v in zip(x.keys, x.values)
+                  if k is not None}
+            okp = okp or (kv.get('self._CAPACITY') ==
+                          'self._get_concurrency()' and
+                          kv.get('self._COUNT') == pr.params[1])
+            if okp:
+                sn = ctx.cfg(pr).node_of(x)
+                ga = U.guard_atoms(ctx.cfg(pr), sn)
+                okp = all(t is False and U.phas(a, '___.get(self._WITH_ITEMS)')
+                          for a, t in ga)
+    r8.check(okp, ctx.construct(pr, extra='count and capacity'),
+             'the with-items context is not initialised with count = number '
+             'of items and capacity = concurrency', ctx.loc(pr))
+    for n, c in prep:
+        a = c.args[0] if c.args else None
+        okc = False
+        if isinstance(a, ast.Name):
+            defs = [x for x in own_nodes(sa.node) if isinstance(x, ast.Assign)
+                    and any(dotted(t) == a.id for t in x.targets)]
+            okc = bool(defs) and all(U.phas(x.value, 'len(___)')
+                                     for x in defs)
+        r8.check(okc, ctx.construct(sa, extra='count is a length'),
+                 'the item count passed to _prepare_runtime_context is not '
+                 'a len(...) of the evaluated with-items values',
+                 ctx.loc(sa, c))
+    # one input dict per index, tagged with that index
+    gi = prog.func(WIT + '._get_input_dicts')
+    loops = [x for x in own_nodes(gi.node) if isinstance(x, ast.For) and
+             '_get_next_indexes()' in norm(x.iter)]
+    oka = False
+    for lp in loops:
+        if not isinstance(lp.target, ast.Name):
+            continue
+        iv = lp.target.id
+        apps = [x for x in lp.body if isinstance(x, ast.Expr) and
+                U.phas(x.value, 'result.append((%s, ___))' % iv)]
+        rets = [x for x in own_nodes(gi.node) if isinstance(x, ast.Return)]
+        oka = len(apps) == 1 and bool(rets) and all(
+            norm(x.value) == 'result' for x in rets)
+    r8.check(oka, ctx.construct(gi, extra='one entry per index'),
+             '_get_input_dicts does not return exactly one (index, input) '
+             'entry per next index', ctx.loc(gi))
+    # next indexes: candidates (completed but unaccepted) first, otherwise
+    # continue after what was started
+    gn = prog.func(WIT + '._get_next_indexes')
+    cfg = ctx.cfg(gn)
+    for x in cfg.nodes:
+        if x.kind not in ('stmt', 'test') or x.ast is None:
+            continue
+        if isinstance(x.ast, (ast.FunctionDef, ast.For, ast.If, ast.While)):
+            continue
+        if U.phas(x.ast, 'max(candidates)') and x.kind == 'stmt':
+            r8.check(U.guarded(cfg, x, 'candidates', True),
+                     ctx.construct(gn, x.ast),
+                     'max(candidates) evaluated although candidates may be '
+                     'empty', ctx.loc(gn, x.ast))
+        if U.phas(x.ast, 'self._get_next_start_index()') and x.kind == 'stmt':
+            r8.check(U.guarded(cfg, x, 'candidates', False),
+                     ctx.construct(gn, x.ast),
+                     'the start index is used although items to re-run '
+                     '(completed, not accepted) exist', ctx.loc(gn, x.ast))
+    cand = [x for x in own_nodes(gn.node) if isinstance(x, ast.Assign) and
+            dotted(x.targets[0]) == 'candidates']
+    r8.check(len(cand) == 1 and
+             U.phas(cand[0].value, 'set(unaccepted) - set(accepted)'),
+             ctx.construct(gn, extra='candidates'),
+             'items to re-run are not "unaccepted minus accepted" indexes',
+             ctx.loc(gn))
+    # result shape
+    gr = prog.func('mistral.workflow.data_flow.get_task_execution_result')
+    cfg = ctx.cfg(gr)
+    WI = 'spec_parser.get_task_spec(task_ex.spec).get_with_items()'
+    for x in cfg.nodes:
+        if x.kind == 'stmt' and isinstance(x.ast, ast.Return) and \
+                x.ast.value is not None:
+            v = x.ast.value
+            if norm(v) == 'results':
+                r8.check(U.guarded(cfg, x, WI, True), ctx.construct(gr, x.ast),
+                         'the full result list is not returned exactly for '
+                         'with-items tasks', ctx.loc(gr, x.ast))
+            else:
+                r8.check(U.guarded(cfg, x, WI, False) and
+                         (not U.phas(v, 'results[0]') or
+                          isinstance(v, ast.IfExp) and
+                          U.phas(v.test, 'len(results) == 1') and
+                          U.phas(v.body, 'results[0]') or
+                          U.guarded(cfg, x, 'len(results) == 1', True)),
+                         ctx.construct(gr, x.ast),
+                         'a with-items result can be unwrapped / a single '
+                         'result is not selected by len(results) == 1',
+                         ctx.loc(gr, x.ast))
 
     # ---- R7 item accounting reads the polymorphic collection ---------------------
     r7 = ctx.rule('R7', 'item accounting uses task_ex.executions, not a '
